@@ -398,7 +398,8 @@ fn build_shapes(rg: &mut StdRng, big: bool) -> Vec<(String, Pats)> {
     v.push(("bulk-1200x64".into(), (0..1200).map(|i| { let mut r = gen::rng(i as u64, 0xB18); (0..64).map(|_| r.gen_range(0..=255u8)).collect() }).collect()));
     // around the packed searcher's pattern limit (128): diverse first bytes and length >= 2, so that a
     // leftmost searcher with a prefilter considers the packed one
-    for n in [127usize, 128, 129, 130, 140, 193, 260] {
+    // ... and around 8-bit counter boundaries (255, 256, 257, 258, 513)
+    for n in [127usize, 128, 129, 130, 140, 193, 255, 256, 257, 258, 260, 513] {
         v.push((format!("diverse-{}", n), (0..n).map(|i| {
             let mut r = gen::rng(i as u64, 0xB19);
             let mut w = vec![b'!' + (i % 90) as u8, b'a' + ((i / 90) % 26) as u8];
@@ -498,7 +499,7 @@ pub fn run_ids(out_prefix: &str, shards: usize, seed: u64, scale: usize) -> (usi
                     ne += 1;
                     // ... and unanchored inside padding long enough for vector prefilters (the id must
                     // survive whatever renumbering a prefilter does internally)
-                    if pats.len() <= 300 {
+                    if pats.len() <= 600 {
                         let mut h2 = vec![b' '; 24];
                         h2.extend_from_slice(&pats[k]);
                         h2.extend(vec![b' '; 24]);
